@@ -770,8 +770,16 @@ impl<W, R, T> CompilationScope<'_, W, R, T> {
                 Ok(XStaticExpr::Array(parts))
             }
             Rule::tuple => {
-                let mut iter = input.into_inner();
-                let parts = iter.next().map_or_else(
+                let mut elements = None;
+                let mut trailing_comma = false;
+                for part in input.into_inner() {
+                    match part.as_rule() {
+                        Rule::container_elements => elements = Some(part),
+                        Rule::tuple_comma => trailing_comma = true,
+                        _ => unreachable!(),
+                    }
+                }
+                let mut parts: Vec<_> = elements.map_or_else(
                     || Ok(vec![]),
                     |c| {
                         c.into_inner()
@@ -779,6 +787,10 @@ impl<W, R, T> CompilationScope<'_, W, R, T> {
                             .collect()
                     },
                 )?;
+                if parts.len() == 1 && !trailing_comma {
+                    // a parenthesised expression
+                    return Ok(parts.swap_remove(0));
+                }
                 Ok(XStaticExpr::Tuple(parts))
             }
             Rule::turbofish_cname => {
